@@ -1,5 +1,6 @@
 //! Interpreter of the request protocol on the REAL crate (built from /repo's working tree).
 
+use crate::colfmt::*;
 use crate::expr::*;
 use crate::util::*;
 use std::fs;
@@ -185,6 +186,31 @@ pub fn exec_line(sess: &mut Session, line: &str) -> String {
         "fmt" => {
             let (e, _) = E::parse(&toks[1..]).unwrap();
             hex_of_str(&e.to_msi().to_string())
+        }
+        "validate" => {
+            let cat = cat_by_name(toks[1]).unwrap().1;
+            let st = str_of_hex(toks[2]).unwrap();
+            (cat.validate(&st) as i32).to_string()
+        }
+        "is_valid" => {
+            let col = ColDef::parse(toks[1]).unwrap().to_msi();
+            let v = V::parse(toks[2]).unwrap().to_msi();
+            (col.is_valid_value(&v) as i32).to_string()
+        }
+        "guid_value" => {
+            let u = uuid::Uuid::parse_str(toks[1]).unwrap();
+            let v = msi::Value::from(u);
+            let ok = msi::Category::Guid.validate(v.as_str().unwrap());
+            format!("{} {}", V::of_msi(&v).tok(), ok as i32)
+        }
+        "langs_value" => {
+            let langs: Vec<msi::Language> = toks[1]
+                .split(',')
+                .map(|c| msi::Language::from_code(c.parse().unwrap()))
+                .collect();
+            let v = msi::Value::from(&langs[..]);
+            let ok = msi::Category::Language.validate(v.as_str().unwrap());
+            format!("{} {}", V::of_msi(&v).tok(), ok as i32)
         }
         "cp_id" => match cp_by_name(toks[1]) {
             Some(cp) => cp.id().to_string(),
